@@ -507,10 +507,13 @@ func genBlock(t *rapid.T, n *vx.Node, title string) []unit {
 	var block []unit
 	var earlier []keySpec // keys of the units before the current one
 	// bad local keys abort the whole request, so they are confined to a minority of blocks (and to single transactions)
-	withBadLocal := rapid.SampledFrom([]bool{false, false, false, false, false, false, true}).Draw(t, "localblock")
+	withBadLocal := rapid.SampledFrom([]bool{false, false, false, false, true}).Draw(t, "localblock")
 	txid := 0
 	for i, cnt := 0, rapid.IntRange(1, 5).Draw(t, "nunits"); i < cnt && txid < 10; i++ {
 		size := rapid.SampledFrom([]int{1, 1, 1, 1, 2, 2, 3, 3, 4, 5}).Draw(t, "size")
+		if withBadLocal {
+			size = 1
+		}
 		var u unit
 		if size == 1 {
 			c := genTx(t, n, title, execs, txid, false, withBadLocal)
@@ -525,7 +528,7 @@ func genBlock(t *rapid.T, n *vx.Node, title string) []unit {
 			var inGroup []keySpec
 			for j := 0; j < size; j++ {
 				c := genTx(t, n, title, groupExecs, txid, clean, false)
-				if j > 0 && rapid.IntRange(0, 2).Draw(t, "rewrite") > 0 {
+				if j > 0 && rapid.Bool().Draw(t, "rewrite") {
 					rewrite(t, &c, inGroup, "rewrite", fmt.Sprint(txid))
 				}
 				inGroup = append(inGroup, c.Keys...)
